@@ -255,6 +255,58 @@ func cmdRunC06(args []string) {
 			mimetype.SetLimit(c06Limits[i%len(c06Limits)])
 		}
 	}()
+	// a second limit writer: any number of goroutines may call SetLimit (also with the value already in force)
+	wg.Add(1)
+	go func() {
+		defer wg.Done()
+		<-start
+		for i := 0; i < rounds; i++ {
+			mimetype.SetLimit(c06Limits[(i/2)%len(c06Limits)])
+		}
+	}()
+	// results shared between goroutines: a fresh result is handed to four goroutines that call its accessors at once
+	// (first use included); every one of them must see the finished value
+	wg.Add(1)
+	go func() {
+		defer wg.Done()
+		<-start
+		for i := 0; i < rounds/2; i++ {
+			pi := i % len(c06Probes)
+			var m *mimetype.MIME
+			if i%2 == 0 {
+				m = mimetype.Detect(c06Probes[pi])
+			} else {
+				m, _ = mimetype.DetectReader(bytes.NewReader(c06Probes[pi]))
+			}
+			if m == nil {
+				continue
+			}
+			var sw sync.WaitGroup
+			seen := make([]string, 4)
+			for a := 0; a < 4; a++ {
+				sw.Add(1)
+				go func(a int) {
+					defer sw.Done()
+					s := m.String()
+					_ = m.Is(s)
+					_ = m.Extension()
+					if p := m.Parent(); p != nil {
+						_ = p.String()
+					}
+					seen[a] = resString(m)
+				}(a)
+			}
+			sw.Wait()
+			for a := 1; a < 4; a++ {
+				if seen[a] != seen[0] || seen[a] == "" {
+					mu.Lock()
+					bad[fmt.Sprintf("(one result read by four goroutines) probe %d: %q vs %q", pi, seen[0], seen[a])] = true
+					mu.Unlock()
+				}
+			}
+			check("D", pi, seen[0])
+		}
+	}()
 	// concurrent Extend calls on one node by several goroutines: formats nobody probes for (never matching),
 	// so the sequential oracle is unaffected, but every one of them must be found afterwards
 	var extra []string
